@@ -76,6 +76,8 @@ def main():
                     rc, out = sh(f"./check {c} --tier quick", cwd=VERIF, env=env, timeout=5400)
                     sigs = [l.strip() for l in out.splitlines() if "signature:" in l][:6]
                     res["checks"][c] = {"rc": rc, "signatures": sigs, "tail": out.strip().splitlines()[-1] if out.strip() else ""}
+                    if rc not in (0, 1):
+                        res["checks"][c]["output_tail"] = out[-1500:]
                 shutil.rmtree(scratch, ignore_errors=True)
             finally:
                 sh("git checkout -q -- .", cwd=wt)
